@@ -218,7 +218,8 @@ void Value::do_sub() {
     if (!get_arith_uint256(Value(args[0]), a)) return;
     if (!get_arith_uint256(Value(args[1]), b)) return;
     if (args.size() == 3 && !get_arith_uint256(Value(args[2]), g)) return;
-    b = -b;
+    // a - b is a + (-b); in a group of order g the inverse of b is g - b, not 2^256 - b
+    b = g.EqualTo(0) ? -b : g - b;
     add(data, a, b, g);
 }
 
